@@ -489,7 +489,9 @@ def zero_fill_oracle(cx, case, ahab, binary):
     tagv = 0x87
     for m in range(len(ahab.ahab_containers), 4):
         b = m * csize
-        if b + 16 <= first:
+        # a slot that a preceding (long: P-384/P-521/RSA-4096 signature block) container reaches into holds that container's bytes -
+        # signature bytes are random, so a 0x87 there is chance (1/256 per run), not a phantom head; only truly unused slots are judged
+        if b + 16 <= first and not any(lo < b + 4 and b < hi for lo, hi in covered):
             s.expect(binary[b + 3] != tagv, (case, "phantom", m), "an unused container slot starts with a container tag", binary[b:b + 4].hex())
 
 
